@@ -267,7 +267,7 @@ func Explore[S any](t *testing.T, c Check[S]) {
 	if c.Batch == 0 {
 		c.Batch = 50
 	}
-	sched.StartWatchdog(300*time.Second, func() string { return c.Property })
+	sched.StartWatchdog(900*time.Second, func() string { return c.Property })
 	gen.Progress = func() { sched.Heartbeat.Add(1) }
 	st := &Stats{Property: c.Property, Worker: env.Worker, Seed: env.Seed,
 		Faults: map[string]int{}, Configured: map[string]int{}, Probes: map[string]int{}, Pairs: map[string]int{},
